@@ -71,7 +71,7 @@ static void case_block(uint64_t idx, vh_rng *r)
 {
     int ci_i = (int)(idx % 11); const ClassInfo &ci = CLS[ci_i];
     Obj *o = new Obj(); BlockCipher *bc = o->get(ci_i);
-    uint8_t key[48], tweak[16], in[16], out[16], e1[16], e2[16];
+    uint8_t key[48], tweak[16], in[16], out[16], e1[16], e2[16]; static uint8_t bigkey[70000];
     unsigned nops = 2 + vh_below(r, 40), i, tl = ci.mantis ? 8 : ci.bb; int keyed = 0, mode = 0; char k_[200];
     vh_sb log; sb_init(&log); sb_printf(&log, "[");
     uint64_t hh = VH_HASH_INIT + (uint64_t)ci_i;
@@ -84,7 +84,14 @@ static void case_block(uint64_t idx, vh_rng *r)
             if (op == 1) { vh_call_begin("clear"); bc->clear(); vh_call_end(); if (log.n < 2500) sb_printf(&log, "\"clear\","); }
             if (!vh_below(r, 6)) {   /* wrong key length must be rejected by both */
                 size_t bl = ci.klen + 1 + vh_below(r, 3); bool rr;
-                vh_call_begin("setKey(bad length)"); rr = bc->setKey(key, vh_below(r, 2) ? bl : ci.klen - 1); vh_call_end();
+                switch (vh_below(r, 6)) {      /* also lengths that only differ in the high bits (an 8- or 16-bit length variable would accept them) and zero */
+                case 0: bl = ci.klen + 256 * (1 + vh_below(r, 2)); break;
+                case 1: bl = ci.klen + 65536; break;
+                case 2: bl = 0; break;
+                case 3: bl = ci.klen - 1; break;
+                default: break;
+                }
+                vh_call_begin("setKey(bad length)"); rr = bc->setKey(bigkey, bl); vh_call_end();
                 VH_COUNT("invalid_length_calls", 1);
                 if (rr) bad = "setKey-accepted-wrong-length";
             }
@@ -95,7 +102,20 @@ static void case_block(uint64_t idx, vh_rng *r)
             if (log.n < 2500) { sb_printf(&log, "{\"setKey\":"); sb_hex(&log, key, ci.klen); sb_printf(&log, "}"); }
         } else if (op <= 4 && ci.tweaked) {
             int null = !vh_below(r, 6);
-            if (!vh_below(r, 8)) { bool rr; vh_call_begin("setTweak(bad length)"); rr = o->setTweak(ci_i, tweak, tl + 1 + vh_below(r, 3)); vh_call_end(); if (rr) bad = "setTweak-accepted-wrong-length"; VH_COUNT("invalid_length_calls", 1); }
+            if (!vh_below(r, 6)) {
+                /* lengths every variant of the C library refuses as well: longer than the block (also by a multiple of 256), zero, and for
+                   Mantis any length other than 8 - with a buffer or with NULL; the call must return false and leave the tweak alone */
+                bool rr; size_t wl = tl + 1 + vh_below(r, 3); const uint8_t *wp = bigkey;
+                switch (vh_below(r, 6)) {
+                case 0: wl = tl + 256; break;
+                case 1: wl = 0; break;
+                case 2: wp = NULL; break;
+                case 3: if (ci.mantis) wl = 1 + vh_below(r, 7); break;
+                case 4: wp = NULL; wl = ci.mantis ? vh_below(r, 8) : 0; break;
+                default: break;
+                }
+                vh_call_begin("setTweak(bad length)"); rr = o->setTweak(ci_i, wp, wl); vh_call_end(); if (rr) bad = "setTweak-accepted-wrong-length"; VH_COUNT("invalid_length_calls", 1);
+            }
             if (!null && !vh_below(r, 5)) VH_COUNT("tweak_set_to_its_current_value_again", 1);     /* same tweak again: must behave like any other tweak change */
             else { memset(tweak, 0, 16); if (!null) vh_fill_interesting(r, tweak, tl); }
             vh_call_begin("setTweak"); if (!o->setTweak(ci_i, null ? NULL : tweak, tl)) bad = "setTweak-rejected-valid-tweak"; vh_call_end();
